@@ -32,10 +32,13 @@ Ltac lists :=
 
 (* the semantics is not vacuous: had truncate_array updated the description before
    cutting the file, its skeleton would not admit the log of the model *)
+Definition sk_swapped_truncate : sk := Seq (Call "_update_len") (Call "truncate").
+Definition sk_values_first : sk := Seq (Call "truncate_array@_values") (Call "truncate_array@_indices").
+
 Example swapped_truncate_not_admitted :
-  ~ aruns (Seq (Call "_update_len") (Call "truncate")) Normal [KTrunc; KDescr; KReadme].
+  ~ aruns sk_swapped_truncate Normal [KTrunc; KDescr; KReadme].
 Proof.
-  unfold aruns; intro H. crunch; lists.
+  unfold aruns, sk_swapped_truncate; intro H. crunch; lists.
 Qed.
 
 (* ... nor had it left the README as it was *)
@@ -48,10 +51,10 @@ Qed.
 (* ... nor does a truncate_raggedarray that cuts values/ before indices/ (seeded change
    C17-m27) admit the log of the model *)
 Example ragged_values_first_not_admitted :
-  ~ rruns (Seq (Call "truncate_array@_values") (Call "truncate_array@_indices")) Normal
+  ~ rruns sk_values_first Normal
           (map KI [KTrunc; KDescr; KReadme] ++ map KV [KTrunc; KDescr; KReadme]).
 Proof.
-  unfold rruns; intro H. crunch; lists.
+  unfold rruns, sk_values_first; intro H. crunch; lists.
 Qed.
 
 (* and the skeletons of the present source do admit them (non-vacuity of the positive side) *)
